@@ -335,8 +335,14 @@ func hostPortNoPort(u *url.URL) (hostPort, hostNoPort string) {
 
 type upgradeKey struct{}
 
+// TestHookDial, if set, sees every URL handed to a Dialer in pass-through mode.
+var TestHookDial func(urlStr string, requestHeader http.Header)
+
 func (d *Dialer) DialContext(ctx context.Context, urlStr string, requestHeader http.Header) (*Conn, *http.Response, error) {
 	if !vs.Active() {
+		if TestHookDial != nil {
+			TestHookDial(urlStr, requestHeader)
+		}
 		nd := &websocket.Dialer{NetDial: d.NetDial, NetDialContext: d.NetDialContext, Proxy: d.Proxy, HandshakeTimeout: d.HandshakeTimeout,
 			ReadBufferSize: d.ReadBufferSize, WriteBufferSize: d.WriteBufferSize, Subprotocols: d.Subprotocols, EnableCompression: d.EnableCompression, Jar: d.Jar}
 		c, resp, err := nd.DialContext(ctx, urlStr, requestHeader)
